@@ -5,12 +5,13 @@ CONSTANTS
   Acts = {"a1"}
   MaxBranches = 2
   MaxDup = 1
-  MaxForeign = 0
+  MaxForeign = 1
   AllowTimeout = TRUE
   OblTruthful = TRUE
   OblLockCover = TRUE
-  OblDirtyRefused = TRUE
+  OblDirtyRefused = FALSE
   OblIdempotent = TRUE
   OblFence = TRUE
 INVARIANTS TypeOK ATAtomicRollback TCCAtomic NoDirtyGlobalWrite RollbackPossible
+PROPERTIES ForeignSafe
 CHECK_DEADLOCK FALSE
